@@ -10,8 +10,9 @@ Case kinds (first token `<mode>.<fault>`):
   rde.*     a file reader of the sender fails mid-part (known finding F17B)
   trh.*     like trc.*, the part being replayed from the liaison's real hand-off queue (enqueueForNode ->
             readPartFromHandoff) instead of shipped by the syncer
-  dqs.*     real stream DistributedAnalyze + Execute (distributedLimit over distributedPlan) against data nodes that
-            evaluate the pushed-down request faithfully; oracle: the standalone window of the union
+  dqs.* dqm.*  real stream / measure DistributedAnalyze + Execute against data nodes that evaluate the pushed-down
+            request faithfully; order_by absent / present with sort UNSPECIFIED / ASC / DESC; oracle: the standalone
+            window of the time-ordered union
   syn.*     the stream / trace syncer's real delivery round (executeSyncWithRetry / executeSyncOperation with the
             real FailedPartsHandler) for one flushed part against scripted data nodes; compared with the queue model
   lwr.*     real liaison Write handlers (traceService / streamService / measureService .Write) with an in-memory
@@ -263,7 +264,7 @@ def snd_cases(rng, n):
 
 def dqs_case(rng):
     """distributed stream query: limit unset/1/5/20/50, offset 0/1/5/30, time order, 1-4 data nodes"""
-    return "dqs.%s %d %d %d %d %d" % (rng.choice(["none", "asc", "desc"]), rng.choice([1, 2, 2, 3, 4]),
+    return "%s.%s %d %d %d %d %d" % (rng.choice(["dqs", "dqm"]), rng.choice(["none", "unspec", "asc", "desc"]), rng.choice([1, 2, 2, 3, 4]),
                                       rng.choice([0, 1, 7, 19, 20, 21, 26, 60, 100]), rng.choice([0, 0, 1, 5, 20, 50]),
                                       rng.choice([0, 0, 1, 5, 30]), rng.randrange(1, 1000))
 
@@ -339,9 +340,10 @@ class C17(vlib.Spec):
             out.append(real_case(rng, "trc"))
         for _ in range(min(n // 150, 1000)):
             out.append(real_case(rng, "trh"))
-        for order in ("none", "asc", "desc"):
-            for lim, off in ((0, 5), (0, 0), (5, 1), (50, 30)):
-                out.append("dqs.%s %d 60 %d %d %d" % (order, rng.choice([2, 3]), lim, off, rng.randrange(1, 1000)))
+        for eng in ("dqs", "dqm"):
+            for order in ("none", "unspec", "asc", "desc"):
+                for lim, off in ((0, 5), (3, 0), (5, 1), (50, 30)):
+                    out.append("%s.%s %d 60 %d %d %d" % (eng, order, rng.choice([2, 3]), lim, off, rng.randrange(1, 1000)))
         for _ in range(n // 20):
             out.append(dqs_case(rng))
         for _ in range(min(n // 60, 2500)):
@@ -383,8 +385,8 @@ class C17(vlib.Spec):
             return self.oracle_chunks(f, g)
         if mode == "rec":
             return self.oracle_rec(f, kind, g)
-        if mode == "dqs":
-            return self.oracle_dqs(f, kind, g)
+        if mode in ("dqs", "dqm"):
+            return self.oracle_dqs(f, kind, g, 20 if mode == "dqs" else 100, mode)
         if mode in ("msr", "str", "trc", "trh"):
             return self.oracle_msr(f, mode + "." + kind, g, kind)
         if mode == "e2e":
@@ -399,7 +401,7 @@ class C17(vlib.Spec):
             return self.oracle_lwr(f, kind, g)
         return None
 
-    def oracle_dqs(self, f, kind, g):
+    def oracle_dqs(self, f, kind, g, default_limit, mode):
         rows, limit, offset = int(f[2]), int(f[3]), int(f[4])
         kv = dict(t.split("=", 1) for t in g.split() if "=" in t)
         if "got" not in kv:
@@ -409,9 +411,10 @@ class C17(vlib.Spec):
         order = list(range(rows))
         if kind == "desc":
             order.reverse()
-        want = order[offset:offset + (limit or 20)]
+        want = order[offset:offset + (limit or default_limit)]
+        kind = mode + "." + kind
         if got != want:
-            return ("violation", "[dqs.%s] limit=%s offset=%d over %d rows on %s nodes: cluster returns %d rows %s…, standalone returns %d rows %s… "
+            return ("violation", "[%s] limit=%s offset=%d over %d rows on %s nodes: cluster returns %d rows %s…, standalone returns %d rows %s… "
                                  "(request pushed to the data nodes: limit+offset=%s)"
                                  % (kind, limit or "unset", offset, rows, f[1], len(got), got[:6], len(want), want[:6], kv.get("pushed")))
         return None
